@@ -27,4 +27,9 @@ if ! cmp -s go.mod.new go.mod 2>/dev/null; then mv go.mod.new go.mod; else rm go
 cp "$REPO/go/go.sum" go.sum
 GO=go1.26.8
 command -v $GO >/dev/null 2>&1 || GO=go
-$GO build -tags verif -o "$VERIF/.build/vh" . 
+$GO build -tags verif -o "$VERIF/.build/vh" .
+# RACE=1: additionally a race-detector build (used by the thorough tier of C01)
+if [ -n "$RACE" ]; then
+  $GO build -race -tags verif -o "$VERIF/.build/vh-race" .
+fi
+
